@@ -3049,6 +3049,17 @@ class InputOutputControlByIdentifierRequest(
         return cls(data_identifier, control_option_record, control_enable_mask_record)
 
 
+def _control_states(pdu: bytes, parameter: InputOutputControlParameter) -> bytes:
+    """Returns the controlStates of a response whose controlStatusRecord starts with the given
+    inputOutputControlParameter."""
+    if pdu[3] != parameter:
+        raise ValueError(
+            f"inputOutputControlParameter mismatch: {hex(pdu[3])} != {hex(parameter)}"
+        )
+
+    return pdu[4:]
+
+
 class ReturnControlToECUResponse(
     InputOutputControlByIdentifierResponse,
     service_id=UDSIsoServices.InputOutputControlByIdentifier,
@@ -3060,6 +3071,12 @@ class ReturnControlToECUResponse(
             data_identifier,
             bytes([InputOutputControlParameter.returnControlToECU]) + control_states,
         )
+
+    @classmethod
+    def _from_pdu(cls, pdu: bytes) -> Self:
+        data_identifier = from_bytes(pdu[1:3])
+        control_states = _control_states(pdu, InputOutputControlParameter.returnControlToECU)
+        return cls(data_identifier, control_states)
 
     def matches(self, request: UDSRequest) -> bool:
         return super().matches(request) and isinstance(request, ReturnControlToECURequest)
@@ -3109,6 +3126,12 @@ class ResetToDefaultResponse(
             bytes([InputOutputControlParameter.resetToDefault]) + control_states,
         )
 
+    @classmethod
+    def _from_pdu(cls, pdu: bytes) -> Self:
+        data_identifier = from_bytes(pdu[1:3])
+        control_states = _control_states(pdu, InputOutputControlParameter.resetToDefault)
+        return cls(data_identifier, control_states)
+
     def matches(self, request: UDSRequest) -> bool:
         return super().matches(request) and isinstance(request, ResetToDefaultRequest)
 
@@ -3157,6 +3180,12 @@ class FreezeCurrentStateResponse(
             bytes([InputOutputControlParameter.freezeCurrentState]) + control_states,
         )
 
+    @classmethod
+    def _from_pdu(cls, pdu: bytes) -> Self:
+        data_identifier = from_bytes(pdu[1:3])
+        control_states = _control_states(pdu, InputOutputControlParameter.freezeCurrentState)
+        return cls(data_identifier, control_states)
+
     def matches(self, request: UDSRequest) -> bool:
         return super().matches(request) and isinstance(request, FreezeCurrentStateResponse)
 
@@ -3203,6 +3232,12 @@ class ShortTermAdjustmentResponse(
             data_identifier,
             bytes([InputOutputControlParameter.shortTermAdjustment]) + control_states,
         )
+
+    @classmethod
+    def _from_pdu(cls, pdu: bytes) -> Self:
+        data_identifier = from_bytes(pdu[1:3])
+        control_states = _control_states(pdu, InputOutputControlParameter.shortTermAdjustment)
+        return cls(data_identifier, control_states)
 
 
 class ShortTermAdjustmentRequest(
